@@ -21,7 +21,10 @@ CARRIED = {
     # TENTATIVE new state and commit nothing (commit happens in update_statevars on success only): that is the C01
     # contract of the real SolidBody around a material with stored state variables
     "C07": [("C01", "solidbody", _stateful)],
-    "C15": [("C01", "solidbody", _stateful)],
+    # C15 also: the state vector a user material's history reaches the solid body through is MaterialStrain's (C03
+    # framework contract around any user material); the step / substep counters a user callback of a
+    # CharacteristicCurve receives are the C09 `curve_callback` contract
+    "C15": [("C01", "solidbody", _stateful), ("C03", "small_strain_user", None), ("C09", "curve_callback", None)],
     # solid bodies on mixed u/p/J fields are verified against StubMixedMaterial (blocks == mixed derivatives of the
     # three-field functional), follower loads against StubAreaChange (cofactor and its derivative)
     "C01": [("C03", "mixed", None), ("C03", "kinematics", None)],
@@ -29,7 +32,12 @@ CARRIED = {
     # whose blocks are the C03 `mixed` contract
     "C10": [("C03", "mixed", None)],
     # pressure resultants are stated against StubAreaChange
-    "C14": [("C03", "kinematics", None)],
+    # ... and the zero total moment of the internal forces is the proved first-moment identity plus Kirchhoff symmetry
+    # P F^T = F P^T of the constitutive law: the C11 contracts of the Lagrange wrappers / AD wrappers
+    "C14": [("C03", "kinematics", None), ("C11", "lagrange", None), ("C11", "wrapper", None)],
+    # hand-coded vs differentiated versions are compared on the plain call; the hand-coded models' out= buffer variants
+    # (what a solid body actually calls) are the C03 `handcoded` contract
+    "C12": [("C03", "handcoded", None)],
     # the reaction-force curve of a homogeneous problem is recorded by CharacteristicCurve through Job.evaluate /
     # Step.generate (ramp subdivision, x0 hand-over): their E2 contracts live in C15
     # ... and the boundary conditions of the uniaxial / biaxial / shear load cases (dof.symmetry and friends) are the
